@@ -416,16 +416,88 @@ def run_shard(spec, col):
 
 
 def recorded_part(spec, col):
-    """Queries recorded while the generator runs (added by vlib/pg.py once
-    built); a no-op until then."""
-    try:
-        from vlib import pgrec
-    except ImportError:
-        return
-    pgrec.judge_recorded_subtype_queries(spec, col, Judge)
+    """(c) every top-level is_subtype / is_assignable query the real generator issues, judged against the
+    program's final class table."""
+    from vlib import pg, pgrec
+    lang = spec['lang']
+    boot.init(lang)
+    rec = pgrec.Recorder(kinds=('subtype',))
+    quick = col.tier == 'quick'
+
+    def judge_case(case):
+        if case.program is None or not case.records:
+            return
+        table = pgrec.final_table(case.program, case.records['table'])
+        sem = rm.RM(table, 'sem')
+        desc = None
+        for r in case.records['records']['subtype']:
+            s, t = tg.tuplify(r['s']), tg.tuplify(r['t'])
+            if s == ('unk',) or t == ('unk',):
+                continue
+            want = sem.sub(s, t)
+            col.case(key=('rec', lang, s, t), nontrivial=bool(want and s != t) or rm.has_kind(s, ('p', 'star')) or rm.has_kind(t, ('p', 'star')),
+                     sample=lambda s=s, t=t, r=r: {'origin': 'generator query', 'lang': lang, 'S': rm.show(s), 'T': rm.show(t),
+                                                   'impl': r['res'], 'reference': want, 'method': r['meth']})
+            col.feature('recorded_queries')
+            if r['res'] and not want:
+                fam = 'no-capture-in-supertypes/' if _proj_recv(table, s) else ''
+                col.violation('C06/unsound%s/%srecorded/%s' % ('-assignable' if r['meth'] == 'is_assignable' else '', fam, _cls(s, t)),
+                              {'S': rm.show(s), 'T': rm.show(t), 'impl': True, 'reference': False, 'lang': lang, 'method': r['meth']},
+                              dict(case.key(), origin='generator'), size=100000 + len(str(s)) + len(str(t)))
+
+    def seed_case(x):
+        seed, (sw, limits) = x
+        judge_case(pg.gen_case(lang, 'seed', seed, sw, limits, recorder=rec))
+    hyp.explore(st.tuples(st.integers(0, 2 ** 31 - 1), pg.config_strategy()), seed_case, 4 if quick else 150, col.shard_seed('rec'))
+
+    def tape_case(x):
+        data, (sw, limits) = x
+        judge_case(pg.gen_case(lang, 'tape', 0, sw, limits, data=data, budget=4000, recorder=rec))
+    hyp.explore(st.tuples(st.data(), pg.config_strategy(small=True)), tape_case, 12 if quick else 400, col.shard_seed('rect'))
+
+
+def _proj_recv(table, x):
+    if x is None or x[0] not in ('i', 'p'):
+        return False
+    if x[0] == 'p':
+        return _proj_recv(table, x[2])
+    info = table.cls.get(x[1])
+    if info and info['supers']:
+        for (pn, pv, pb), a in zip(info['params'], x[2]):
+            if rm.is_proj(a) and any(pn in rm.free_vars(sup) for sup in info['supers']):
+                return True
+    return any(_proj_recv(table, a) for a in x[2])
+
+
+def _cls(s, t):
+    tags = []
+    if rm.has_kind(s, ('v',)) or rm.has_kind(t, ('v',)):
+        tags.append('typevar')
+    if s[0] == 'k' or t[0] == 'k':
+        tags.append('bare-constructor')
+    if s[0] == 'i' and t[0] == 'i':
+        tags.append('same-constructor' if s[1] == t[1] else 'nominal')
+    return '+'.join(tags) or 'other'
 
 
 def replay(case, col):
+    if case.get('origin') == 'generator':
+        from vlib import pg, pgrec
+        key = {k: v for k, v in case.items() if k != 'origin'}
+        boot.init(key['lang'])
+        rec = pgrec.Recorder(kinds=('subtype',))
+        c = pg.regen(key, recorder=rec)
+        if c.program is None:
+            return
+        table = pgrec.final_table(c.program, c.records['table'])
+        sem = rm.RM(table, 'sem')
+        for r in c.records['records']['subtype']:
+            s, t = tg.tuplify(r['s']), tg.tuplify(r['t'])
+            if s != ('unk',) and t != ('unk',) and r['res'] and not sem.sub(s, t):
+                fam = 'no-capture-in-supertypes/' if _proj_recv(table, s) else ''
+                col.violation('C06/unsound%s/%srecorded/%s' % ('-assignable' if r['meth'] == 'is_assignable' else '', fam, _cls(s, t)),
+                              {'S': rm.show(s), 'T': rm.show(t)}, case)
+        return
     boot.init_types_only()
     u = tg.universe_from_spec(case['universe'])
     J = Judge(u, col, 'replay')
